@@ -294,10 +294,38 @@ def p_zip_longest(I, n, pos, kw):
     return I.unknown("prim:itertools.zip_longest", n)
 
 
+@prim("builtins.iter")
+def p_iter(I, n, pos, kw):
+    """iter(x) over a list or the rows of an array: an iterator object that remembers how many items were taken"""
+    if len(pos) == 1 and isinstance(pos[0], (Seq, Arr)):
+        return ObjV(None, dict(src=pos[0], pos=0), tag="iter")
+    if len(pos) == 1 and isinstance(pos[0], ObjV) and pos[0].tag == "iter":
+        return pos[0]
+    return I.unknown("prim:builtins.iter", n)
+
+
 @prim("builtins.next")
 def p_next(I, n, pos, kw):
     # next(<generator over a concrete list with decided conditions>[, default]): the comprehension is evaluated eagerly
     v = pos[0]
+    if isinstance(v, ObjV) and v.tag == "iter" and v.attrs["pos"] is not None:
+        src, k = v.attrs["src"], v.attrs["pos"]
+        if isinstance(src, Seq):
+            if k < len(src.items):
+                v.attrs["pos"] = k + 1
+                return src.items[k]
+            if len(pos) > 1:
+                return pos[1]
+            I.event("raise", n, exc="StopIteration")
+            return I.unknown("prim:builtins.next", n)
+        if isinstance(src, Arr):
+            sp = src.axes[0][0]
+            # item k exists when the axis is longer than k: known for k = 0 on a non-empty axis, otherwise not decided
+            enough = I.decide(sym.Cmp(">", sp.size, sym.Num(k)))
+            if enough is not True:
+                I.lose("next() on an iterator that may be exhausted (StopIteration path not followed)", n)
+            v.attrs["pos"] = k + 1
+            return arrays.index(src, [("int", k)])
     if isinstance(v, Seq):
         if v.items:
             return v.items[0]
@@ -580,6 +608,30 @@ def p_eye(I, n, pos, kw):
             return DiagMat(pos[0].e, fresh(), sym.TRUE, sym.FALSE)
         return DiagMat(pos[0].e, fresh(), sym.ONE, sym.ZERO)
     return I.unknown("eye", n)
+
+
+@prim("numpy.diag_indices", "numpy.diag_indices_from")
+def p_diag_indices(I, n, pos, kw):
+    """(arange(k), arange(k)): the index pair that walks the main diagonal"""
+    tgt = I.log[-1]["target"]
+    k = None
+    if tgt.endswith("_from") and pos:
+        a = pos[0]
+        if isinstance(a, DiagMat):
+            k = a.n
+        elif isinstance(a, Blocks):
+            k = a.shape[0]
+        elif isinstance(a, Arr) and a.ndim == 2:
+            k = a.axes[0][0].size
+    elif pos and isinstance(pos[0], Sc) and pos[0].e is not None:
+        k = pos[0].e
+    if k is None or len(pos) > 1 or kw:
+        return I.unknown("diag_indices", n)
+    out = []
+    for _ in range(2):
+        iv = fresh()
+        out.append(Arr([(rng(k), iv)], sym.IV(iv), "nd"))
+    return Seq(out, "tuple")
 
 
 @prim("numpy.block")
@@ -1202,6 +1254,22 @@ def _pset_of(I, v):
         return v.pred
     if isinstance(v, ObjV) and v.tag == "range":
         return sym.And(sym.Cmp(">=", e_, v.attrs["lo"].e), sym.Cmp("<", e_, v.attrs["hi"].e))
+    if isinstance(v, Arr) and v.ndim == 1 and v.elem == sym.IV(v.axes[0][1]):
+        # the positions of a (mask-selected part of a) range: e is a member iff it is a position and every mask holds there
+        sp, iv = v.axes[0]
+        conds = []
+        while sp.key[0] == "sub" and sp.parent is not None:
+            c = sp.key[2]
+            fiv = sorted(sym.free_ivars(c))
+            if iv in fiv:
+                c = sym.subst_ivar(c, iv, (PSet.VAR, 0))
+            elif len(fiv) == 1:
+                c = sym.subst_ivar(c, fiv[0], (PSet.VAR, 0))
+            else:
+                return None
+            conds.append(c)
+            sp = sp.parent
+        return sym.And(sym.Cmp(">=", e_, sym.ZERO), sym.Cmp("<", e_, sp.size), *conds)
     if isinstance(v, Seq) and all(isinstance(x, Sc) and x.e is not None for x in v.items):
         return sym.Or(*[sym.Cmp("==", e_, x.e) for x in v.items]) if v.items else sym.FALSE
     if isinstance(v, Alt) and getattr(v, "conds", None) and len(v.conds) == len(v.vals):
@@ -1232,14 +1300,18 @@ def p_set(I, n, pos, kw):
 
 @prim("numpy.flatnonzero")
 def p_flatnonzero(I, n, pos, kw):
+    """the positions at which a 1-d array is non-zero, in increasing order: the identity on the mask-selected part of the
+    axis (set(...) of it is the membership-predicate set; as an index it selects like the mask itself)"""
     m = pos[0] if isinstance(pos[0], Arr) else arrays.to_arr(pos[0])
     if isinstance(m, Arr) and m.ndim == 1:
         sp, iv = m.axes[0]
-        e_ = sym.IV(PSet.VAR)
-        cond = sym.subst_ivar(m.elem, iv, (PSet.VAR, 0))
+        cond = m.elem
         if not _is_boolish(cond):
             cond = sym.Cmp("!=", cond, sym.ZERO)
-        return PSet(sym.And(sym.Cmp(">=", e_, sym.ZERO), sym.Cmp("<", e_, sp.size), cond))
+        if I.decide(cond) is True or cond == sym.TRUE:
+            return Arr([(sp, iv)], sym.IV(iv), "nd")
+        from .values import subspace
+        return Arr([(subspace(sp, cond), iv)], sym.IV(iv), "nd")
     return I.unknown("flatnonzero", n)
 
 
